@@ -29,7 +29,8 @@ Quirks reproduced
 * a NaN result passes the constructor but is an instance of no Float type (`min <= NaN` is false): `Float.new(NaN)` is
   `TYPE_MISMATCH`, `Numeric.new(NaN)` is NaN (`NumericType.IsInstance` looks at the value's type only).
 * the underscore rule of `ParseInt` with base 0 (`1_000`) is not modelled: `FloatPattern` admits no underscore.
-* `Timespan` and `Timestamp` in `Convertible` have no values in the alphabet: they are written `never`.
+* a Timespan converts to its seconds as a float (`Timespan.Float()` = `float64(ns) / 1e9`) for Numeric as well;
+  `Timestamp` in `Convertible` has no value in the alphabet: it is written `never`.
 -/
 namespace Pcore.Dispatch.Alpha
 
@@ -48,6 +49,7 @@ def fromConvertible (c : Val) (allowInt : Bool) : CtorResult Val :=
   | .int n => .value (if allowInt then .int n else .float (F64.ofInt n))
   | .bool b => .value (if allowInt then .int (if b then 1 else 0) else .float (if b then F64.one else F64.zero))
   | .float b => .value (.float b)
+  | .timespan ns => .value (.float (F64.spanFloat ns))
   | .str s =>
     let cs := s.toList
     match (if allowInt then Pcore.Syntax.parseInt cs else none) with
@@ -90,7 +92,7 @@ def numberNamed (args : List Val) (tryInt : Bool) : CtorResult Val :=
   | .hash es :: _ => numberBody pf ((lookupKey "from" es).getD .undef) (lookupKey "abs" es) tryInt
   | _ => .fault
 
-def convertibleF : Ty := .var [.numeric, .bool, .floatPat, .never, .never]
+def convertibleF : Ty := .var [.numeric, .bool, .floatPat, anyTimespan, .never]
 def namedArgsF : Ty := .struct [("from", false, convertibleF), ("abs", true, .bool)]
 
 def floatCtor : Ctor where
